@@ -53,6 +53,11 @@ def configs(tier):
                     continue
                 cfgs.append(dict(group='history', strat=strat, storage=st, m=m, cap=cap, d=2, q=1,
                                  steps='iuiuui' if tier == 'quick' else 'iuiuuiui', _cost=3000))
+        # histories in which the requested subset changes from call to call (each impute picks any subset)
+        cfgs.append(dict(group='history', strat=strat, storage='batch', m=2, cap=2, d=2, q=1, steps='iii', subsets='any', _cost=4000))
+        cfgs.append(dict(group='history', strat=strat, storage='interval', m=2, cap=2, d=2, q=1, steps='iuii', subsets='any', _cost=4000))
+        if tier == 'thorough':
+            cfgs.append(dict(group='history', strat=strat, storage='batch', m=2, cap=2, d=3, q=1, steps='iii', subsets='any', _cost=40000))
     for d in range(1, dmax + 1):
         for q in range(1, qmax + 1):
             cfgs.append(dict(group='default', d=d, q=q))
@@ -180,6 +185,9 @@ def _history(env, cfg, ctx):
     imp = guarded(env, 'ctor', MarginalImputer, model, cfg['strat'], storage)
     S = list(names)
     t = 0
+    two = None
+    if cfg.get('subsets') == 'any':
+        two = MarginalImputer(model, cfg['strat'], storage)      # a second imputer object in the same process
     for step in cfg['steps']:
         t += 1
         if step == 'u':
@@ -188,7 +196,16 @@ def _history(env, cfg, ctx):
         x = sym_row(env, names, f"x{t}")
         now = list(storage.get_data()[0])
         n_calls, n_draws = len(model.calls), len(ctx.py_random.calls)
-        preds = guarded(env, 'impute', imp.impute, S, x, cfg['q'])
+        if cfg.get('subsets') == 'any':
+            mask = env.choose(2 ** len(names), label=('subset', t))
+            S = [f for i, f in enumerate(names) if mask >> i & 1]
+        which = imp if (two is None or t % 2) else two
+        preds = guarded(env, 'impute', which.impute, list(S), x, cfg['q'])
+        for z in model.calls[n_calls:]:
+            for f in names:
+                if f not in S:
+                    env.claim('features_outside_subset_keep_instance_value', same_term(z[f], x[f]),
+                              detail=f"step {t} of {cfg['steps']}, subset {S}")
         env.claim('returns_n_samples_predictions', len(preds) == cfg['q'])
         for z in model.calls[n_calls:]:
             if cfg['strat'] == 'joint':
@@ -200,6 +217,6 @@ def _history(env, cfg, ctx):
         draws = ctx.py_random.calls[n_draws:]
         env.claim('row_indices_requested_over_whole_current_storage',
                   all((c[0] == 'randrange' and c[1] == (0, len(now))) or (c[0] == 'randint' and c[1] == (0, len(now) - 1))
-                      for c in draws if c[0] in ('randrange', 'randint')) and len(draws) >= 1,
+                      for c in draws if c[0] in ('randrange', 'randint')) and (len(draws) >= 1 or (cfg['strat'] != 'joint' and not S)),
                   detail=f"step {t}: storage holds {len(now)} rows, draws {[(c[0], c[1]) for c in draws]}")
         env.claim('storage_object_still_the_given_one', imp.storage_object is storage)
